@@ -43,6 +43,58 @@ func (fr *Frame) call(x *ssa.Call) {
 		}
 	}
 	fr.callFunction(x, callee, args, bindings)
+	fr.assertsAfter(x, callee)
+}
+
+// assertsAfter: proof-decomposition assertions anchored after this call.
+func (fr *Frame) assertsAfter(x *ssa.Call, callee *ssa.Function) {
+	c := fr.contract
+	if c == nil || len(c.Asserts) == 0 || fr.reach == False {
+		return
+	}
+	// static ordinal of this call among calls of the same callee
+	ord := 0
+	found := false
+	for _, b := range fr.fn.Blocks {
+		for _, in := range b.Instrs {
+			if cl, ok := in.(*ssa.Call); ok && cl.Call.StaticCallee() == callee {
+				ord++
+				if cl == x {
+					found = true
+					break
+				}
+			}
+		}
+		if found {
+			break
+		}
+	}
+	for k, a := range c.Asserts {
+		if a.Callee != callee.Name() || a.Ord != ord {
+			continue
+		}
+		env := fr.contractEnv(fr.params, nil, fr.st, fr.entry)
+		base := env.resolve
+		blk, cur, st := fr.blk, fr.env, fr.st
+		env.resolve = func(name string) *CV {
+			if v := fr.resolveLocal(name, blk, cur, st); v != nil {
+				return v
+			}
+			return base(name)
+		}
+		t, err := env.evalBool(a.C.E)
+		if err != nil {
+			fr.u.errs = append(fr.u.errs, fmt.Sprintf("%s: assert %s: %v (contract.attach)", a.C.Where, a.C.Src, err))
+			continue
+		}
+		name := fmt.Sprintf("%s#assert.%d", fr.oblPrefix(), k+1)
+		fr.u.counters[name]++
+		if n := fr.u.counters[name]; n > 1 {
+			name = fmt.Sprintf("%s@%d", name, n)
+		}
+		fr.u.addObl(name, "assert", fr.reach, t, a.C.Where, a.C.Src)
+		fr.assume(t)
+	}
 }
 
 func (fr *Frame) setResults(x *ssa.Call, callee *types.Signature, res []*Val) {
@@ -116,6 +168,13 @@ func (fr *Frame) callFunction(x *ssa.Call, callee *ssa.Function, args []*Val, bi
 
 // inlineCall executes the callee's body in place.
 func (fr *Frame) inlineCall(x *ssa.Call, callee *ssa.Function, c *Contract, args []*Val, bindings []*Val) {
+	for i, a := range args {
+		if a.Unique && i < len(x.Call.Args) && !singleUse(x.Call.Args[i]) {
+			n := *a
+			n.Unique = false
+			args[i] = &n
+		}
+	}
 	ch := &Frame{u: fr.u, fn: callee, fi: fr.u.v.info(callee), contract: c, guard: fr.reach, params: args, fvs: bindings, top: false,
 		depth: fr.depth + 1, parent: fr, quiet: fr.quiet, inlineSet: fr.inlineSet}
 	ch.entry = fr.st.clone()
@@ -205,25 +264,34 @@ func (fr *Frame) callContract(x ssa.Instruction, callee *ssa.Function, c *Contra
 		}
 	}
 	oldNext := fr.st.Next
-	fr.st.Next = Fresh("next", IntS)
-	fr.assume(Ge(fr.st.Next, oldNext))
+	{
+		var f *Term
+		fr.st.Next, f = newNext(oldNext)
+		fr.u.facts = append(fr.u.facts, f)
+	}
 	// results
 	var res []*Val
 	rs := callee.Signature.Results()
 	for i := 0; i < rs.Len(); i++ {
 		rv := freshVal(rs.At(i).Type(), "r!"+callee.Name())
-		for _, f := range validFacts(rv, fr.st.Next, nil) {
-			fr.assume(f)
-		}
+		fr.u.facts = append(fr.u.facts, validFacts(rv, fr.st.Next, nil)...)
+		registerBelow(rv, fr.st.Next)
 		res = append(res, rv)
 	}
 	penv := cf.contractEnv(args, res, fr.st, pre)
+	var ens []*Term
 	for _, en := range c.Ensures {
 		t, err := penv.evalBool(en.E)
 		if err != nil {
 			u.errs = append(u.errs, fmt.Sprintf("%s: ensures %s: %v (contract.attach)", en.Where, en.Src, err))
 			continue
 		}
+		ens = append(ens, t)
+	}
+	// definitional postconditions (result component == term) are substituted
+	// into the result values, so that lengths stay syntactically visible
+	res, ens = substDefinitional(res, ens)
+	for _, t := range ens {
 		fr.assume(t)
 	}
 	if c.Trusted {
@@ -338,15 +406,17 @@ func (fr *Frame) genericExternal(x *ssa.Call, callee *ssa.Function, name string,
 	u.v.assumptions["external "+name+" (no contract): no panic, terminates, result unconstrained"] = true
 	fr.havocArgs(args)
 	oldNext := fr.st.Next
-	fr.st.Next = Fresh("next", IntS)
-	fr.assume(Ge(fr.st.Next, oldNext))
+	{
+		var f *Term
+		fr.st.Next, f = newNext(oldNext)
+		fr.u.facts = append(fr.u.facts, f)
+	}
 	var res []*Val
 	rs := callee.Signature.Results()
 	for i := 0; i < rs.Len(); i++ {
 		rv := freshVal(rs.At(i).Type(), "r!"+callee.Name())
-		for _, f := range validFacts(rv, fr.st.Next, nil) {
-			fr.assume(f)
-		}
+		fr.u.facts = append(fr.u.facts, validFacts(rv, fr.st.Next, nil)...)
+		registerBelow(rv, fr.st.Next)
 		res = append(res, rv)
 	}
 	fr.setResults(x, callee.Signature, res)
@@ -381,14 +451,16 @@ func (fr *Frame) invoke(x *ssa.Call, args []*Val) {
 	fr.havocArgs(args)
 	// the receiver's own object may change too
 	oldNext := fr.st.Next
-	fr.st.Next = Fresh("next", IntS)
-	fr.assume(Ge(fr.st.Next, oldNext))
+	{
+		var f *Term
+		fr.st.Next, f = newNext(oldNext)
+		fr.u.facts = append(fr.u.facts, f)
+	}
 	var res []*Val
 	for i := 0; i < sig.Results().Len(); i++ {
 		rv := freshVal(sig.Results().At(i).Type(), "r!"+c.Method.Name())
-		for _, f := range validFacts(rv, fr.st.Next, nil) {
-			fr.assume(f)
-		}
+		fr.u.facts = append(fr.u.facts, validFacts(rv, fr.st.Next, nil)...)
+		registerBelow(rv, fr.st.Next)
 		res = append(res, rv)
 	}
 	fr.setResults(x, sig, res)
@@ -445,14 +517,16 @@ func (fr *Frame) callIfaceContract(x *ssa.Call, c *Contract, recv *Val, args []*
 		}
 	}
 	oldNext := fr.st.Next
-	fr.st.Next = Fresh("next", IntS)
-	fr.assume(Ge(fr.st.Next, oldNext))
+	{
+		var f *Term
+		fr.st.Next, f = newNext(oldNext)
+		fr.u.facts = append(fr.u.facts, f)
+	}
 	var res []*Val
 	for i := 0; i < sig.Results().Len(); i++ {
 		rv := freshVal(sig.Results().At(i).Type(), "r!"+c.Fn)
-		for _, f := range validFacts(rv, fr.st.Next, nil) {
-			fr.assume(f)
-		}
+		fr.u.facts = append(fr.u.facts, validFacts(rv, fr.st.Next, nil)...)
+		registerBelow(rv, fr.st.Next)
 		res = append(res, rv)
 	}
 	penv := mkEnv(res, fr.st, pre)
@@ -564,6 +638,12 @@ func (fr *Frame) appendBuiltin(x *ssa.Call, s, t *Val, tT types.Type) *Val {
 	}
 	newLen := Add(s.Len, n)
 	fits := Le(newLen, s.Cap)
+	uniq1 := s.Unique && singleUse(x.Call.Args[0])
+	if uniq1 {
+		// s is exclusively owned and dead after this call: growing in place and
+		// reallocating are indistinguishable, so one case suffices
+		fits = False
+	}
 	if k, ok := n.Int64(); ok && k == 0 {
 		// append(s) / append(s, empty...): result is s itself
 		return s
@@ -587,6 +667,7 @@ func (fr *Frame) appendBuiltin(x *ssa.Call, s, t *Val, tT types.Type) *Val {
 		fr.checkWrite(x, s.Ref, Add(s.Off, Mul(IntLit(sz), s.Len)), Mul(IntLit(sz), n))
 		fr.reach = sv
 	}
+	resRef, resOff := Ite(fits, s.Ref, fresh), Ite(fits, s.Off, IntLit(0))
 	for _, k := range uniq {
 		var srow *Term
 		if t.K == VString {
@@ -595,33 +676,35 @@ func (fr *Frame) appendBuiltin(x *ssa.Call, s, t *Val, tT types.Type) *Val {
 			srow = fr.st.row(k, t.Ref)
 		}
 		cells := Mul(IntLit(sz), n)
+		oldCells := Mul(IntLit(sz), s.Len)
 		oldRow := fr.st.row(k, s.Ref)
-		// realloc case: fresh row = old contents then new
 		zero := ConstArr(ArrS(IntS, kindSort(k)), zeroTerm(k))
-		var nrow *Term
-		if fits != True {
-			nrow = fr.copyRange(zero, IntLit(0), oldRow, s.Off, Mul(IntLit(sz), s.Len))
-			nrow = fr.copyRange(nrow, Mul(IntLit(sz), s.Len), srow, t.Off, cells)
-		}
 		h := fr.st.heap(k)
-		var hIn, hNew *Term
+		_, c1 := oldCells.Int64()
+		_, c2 := cells.Int64()
 		if fits != False {
-			irow := fr.copyRange(oldRow, Add(s.Off, Mul(IntLit(sz), s.Len)), srow, t.Off, cells)
-			hIn = Store(h, s.Ref, irow)
+			// in place: the backing array of s gets the new elements after its length
+			irow := fr.copyRange(oldRow, Add(s.Off, oldCells), srow, t.Off, cells)
+			h = Store(h, s.Ref, Ite(fits, irow, oldRow))
 		}
 		if fits != True {
-			hNew = Store(h, fresh, nrow)
+			// reallocation: a fresh array holding old contents then the new elements
+			var nrow *Term
+			if c1 && c2 {
+				nrow = fr.copyRange(zero, IntLit(0), oldRow, s.Off, oldCells)
+				nrow = fr.copyRange(nrow, oldCells, srow, t.Off, cells)
+			} else {
+				nrow = Fresh("row", zero.S)
+				j := BoundVar("k", IntS)
+				fr.assume(Forall([]*Term{j}, Eq(Select(nrow, j),
+					Ite(And(Le(IntLit(0), j), Lt(j, oldCells)), Select(oldRow, Add(s.Off, j)),
+						Ite(And(Le(oldCells, j), Lt(j, Add(oldCells, cells))), Select(srow, Add(t.Off, Sub(j, oldCells))), zeroTerm(k))))))
+			}
+			h = Store(h, fresh, nrow)
 		}
-		switch {
-		case fits == True:
-			fr.st.H[k] = hIn
-		case fits == False:
-			fr.st.H[k] = hNew
-		default:
-			fr.st.H[k] = Ite(fits, hIn, hNew)
-		}
+		fr.st.H[k] = h
 	}
-	return &Val{K: VSlice, T: x.Type(), Ref: Ite(fits, s.Ref, fresh), Off: Ite(fits, s.Off, IntLit(0)), Len: newLen, Cap: Ite(fits, s.Cap, ncap)}
+	return &Val{K: VSlice, T: x.Type(), Ref: resRef, Off: resOff, Len: newLen, Cap: Ite(fits, s.Cap, ncap), Unique: fits == False}
 }
 
 // ---- external models coded in Go (those that need shapes the contract language lacks)
@@ -716,4 +799,192 @@ func constCells(info *types.Info, e ast.Expr, t types.Type) ([]*Term, bool) {
 		return out, true
 	}
 	return nil, false
+}
+
+// substDefinitional: for top-level conjuncts `v == t` of the postcondition
+// where v is a fresh result variable not occurring in t, replace v by t.
+func substDefinitional(res []*Val, ens []*Term) ([]*Val, []*Term) {
+	isRes := map[*Term]bool{}
+	for _, r := range res {
+		for _, t := range flatten(r, nil) {
+			if t.Op == "var" {
+				isRes[t] = true
+			}
+		}
+	}
+	for round := 0; round < 4; round++ {
+		m := map[*Term]*Term{}
+		var conj []*Term
+		for _, e := range ens {
+			if e.Op == "and" {
+				conj = append(conj, e.Args...)
+			} else {
+				conj = append(conj, e)
+			}
+		}
+		for _, c := range conj {
+			if c.Op != "=" {
+				continue
+			}
+			for _, p := range [][2]*Term{{c.Args[0], c.Args[1]}, {c.Args[1], c.Args[0]}} {
+				v, t := p[0], p[1]
+				if !isRes[v] || m[v] != nil {
+					continue
+				}
+				if mentions(t, isRes) {
+					continue
+				}
+				m[v] = t
+				break
+			}
+		}
+		if len(m) == 0 {
+			break
+		}
+		for v := range m {
+			delete(isRes, v)
+		}
+		for i, e := range ens {
+			ens[i] = Subst(e, m)
+		}
+		for i, r := range res {
+			fl := flatten(r, nil)
+			ch := false
+			for j, t := range fl {
+				if n := Subst(t, m); n != t {
+					fl[j] = n
+					ch = true
+				}
+			}
+			if ch {
+				res[i] = rebuildLike(r, fl)
+			}
+		}
+	}
+	return res, ens
+}
+
+func mentions(t *Term, set map[*Term]bool) bool {
+	ord, _ := collect([]*Term{t})
+	for _, x := range ord {
+		if set[x] {
+			return true
+		}
+	}
+	return false
+}
+
+// singleUse: the SSA value has exactly one use besides debug references.
+func singleUse(v ssa.Value) bool {
+	rs := v.Referrers()
+	if rs == nil {
+		return false
+	}
+	n := 0
+	for _, r := range *rs {
+		if _, ok := r.(*ssa.DebugRef); ok {
+			continue
+		}
+		n++
+	}
+	return n == 1
+}
+
+// uniqueDef: syntactic ownership check — value v is a freshly allocated slice
+// that is never stored, captured or aliased before it is returned.
+func (v *Verifier) uniqueDef(x ssa.Value, depth int) bool {
+	if depth > 6 {
+		return false
+	}
+	okUses := func(val ssa.Value) bool {
+		for _, r := range *val.Referrers() {
+			switch u := r.(type) {
+			case *ssa.DebugRef, *ssa.Return:
+			case *ssa.IndexAddr:
+				for _, rr := range *u.Referrers() {
+					switch w := rr.(type) {
+					case *ssa.Store:
+						if w.Addr != ssa.Value(u) {
+							return false
+						}
+					case *ssa.UnOp, *ssa.DebugRef:
+					default:
+						return false
+					}
+				}
+			case *ssa.Call:
+				if b, ok := u.Call.Value.(*ssa.Builtin); ok {
+					switch b.Name() {
+					case "len", "cap", "copy":
+						continue
+					case "append":
+						if u.Call.Args[0] == val && singleUse(val) {
+							continue
+						}
+					}
+				}
+				return false
+			default:
+				return false
+			}
+		}
+		return true
+	}
+	switch d := x.(type) {
+	case *ssa.MakeSlice:
+		return okUses(d)
+	case *ssa.Slice:
+		// make([]T, const) is lowered to new [N]T + slice
+		if a, ok := d.X.(*ssa.Alloc); ok && a.Heap && singleUse(a) {
+			return okUses(d)
+		}
+	case *ssa.Call:
+		if b, ok := d.Call.Value.(*ssa.Builtin); ok && b.Name() == "append" {
+			return v.uniqueDef(d.Call.Args[0], depth+1) && okUses(d)
+		}
+		if callee := d.Call.StaticCallee(); callee != nil {
+			if c := v.lib.Contracts[v.prog.names[callee]]; c != nil && contractResultUnique(c) {
+				return okUses(d)
+			}
+			// loop-free helper that will be inlined: look through it
+			if v.prog.inRepo(callee) && len(v.info(callee).Loops) == 0 {
+				for _, b := range callee.Blocks {
+					for _, in := range b.Instrs {
+						if r, ok := in.(*ssa.Return); ok && len(r.Results) == 1 {
+							if !v.uniqueDefThroughParams(r.Results[0], callee, d.Call.Args, depth+1) {
+								return false
+							}
+						}
+					}
+				}
+				return okUses(d)
+			}
+		}
+	}
+	return false
+}
+
+func (v *Verifier) uniqueDefThroughParams(x ssa.Value, callee *ssa.Function, args []ssa.Value, depth int) bool {
+	if c, ok := x.(*ssa.Call); ok {
+		if b, ok := c.Call.Value.(*ssa.Builtin); ok && b.Name() == "append" {
+			if p, ok := c.Call.Args[0].(*ssa.Parameter); ok {
+				for i, q := range callee.Params {
+					if q == p && singleUse(p) && singleUse(args[i]) {
+						return v.uniqueDef(args[i], depth+1)
+					}
+				}
+				return false
+			}
+		}
+	}
+	return v.uniqueDef(x, depth+1)
+}
+
+func contractResultUnique(c *Contract) bool {
+	for _, e := range c.Ensures {
+		if strings.Contains(e.Src, "unique(result") {
+			return true
+		}
+	}
+	return false
 }
